@@ -3,7 +3,7 @@ From Coq Require Import ZArith List Bool Lia.
 Import ListNotations.
 Require Import MV.C01.Defs MV.C01.Gen MV.C01.Model MV.C01.Spec MV.C01.Pure
         MV.C01.ProofsMaps MV.C01.ProofsCorners MV.C01.ProofsTables MV.C01.ProofsAccess MV.C01.ProofsEdges
-        MV.C01.ProofsQuery MV.C01.ProofsSort MV.C01.ProofsRing MV.C01.ProofsBorder.
+        MV.C01.ProofsQuery MV.C01.ProofsSort MV.C01.ProofsRing MV.C01.ProofsBorder MV.C01.ProofsMore MV.C01.ProofsVerts.
 From Coq Require Import Sorting.Permutation.
 Open Scope Z_scope.
 
@@ -84,33 +84,24 @@ Proof.
   destruct guard_vertex_to_vertices as [[a []]|]; cbn; unfold CR; rewrite ?HT; reflexivity.
 Qed.
 
-(* sorting on: the corners around every vertex come in rotational order (closed ring / open fan from border to border);
-   the vertex ring is a rearrangement of the neighbours *)
+(* sorting on: the corners around every vertex come in rotational order (closed ring / open fan from border to border)
+   and the vertices around it in the matching order: the neighbour across the incoming border edge first (border vertex
+   only), then the half-edge targets of the corner ring *)
 Lemma vertex_ring_sorted nv faces m :
-  wf_mesh nv faces -> mesh_of nv faces m ->
+  wf_mesh nv faces -> mesh_of nv faces m -> edges_exact faces (m_edges m) ->
   forall A, 0 <= A < nv ->
-    (exists l, p_vertex_to_corners m true A = Ok (Some l) /\ ring_spec faces A l)
-    /\ (exists vs, p_vertex_to_vertices m true A = Ok vs /\ Permutation vs (nbrs (m_edges m) A)).
+    exists l, p_vertex_to_corners m true A = Ok (Some l) /\ ring_spec faces A l
+              /\ p_vertex_to_vertices m true A = Ok (sp_vertex_ring faces l).
 Proof.
-  intros Hw Hm A HA. destruct (compute_sorted_spec nv faces m Hw Hm) as (T & ET & _ & HR).
-  destruct (HR A HA) as ((l & El & Hl) & (vs & Ev & Hv)). split.
-  - exists l. rewrite (vertex_to_corners_eq m true T A ET), El. auto.
-  - exists vs. rewrite (vertex_to_vertices_eq m true T A ET), Ev. auto.
+  intros Hw Hm Hex A HA. destruct (compute_sorted_spec nv faces m Hw Hm) as (T & ET & _ & HR).
+  destruct (HR A HA) as (l & vs & El & Hl & Ev & Hvs).
+  exists l. rewrite (vertex_to_corners_eq m true T A ET), El. split; [reflexivity|]. split; [exact Hl|].
+  rewrite (vertex_to_vertices_eq m true T A ET), Ev. cbn [of_opt]. f_equal.
+  apply (vertex_order nv faces (proj1 Hw) A l Hl (nbrs (m_edges m) A)); [apply nbrs_NoDup| |exact Hvs].
+  intros w. rewrite nbrs_In. apply Hex.
 Qed.
 
 (* sorting off: the same answers as sets (the model lists them in corner / edge order) *)
-Lemma nbrs_In es v w : In w (nbrs es v) <-> In (v, w) es \/ In (w, v) es.
-Proof.
-  unfold nbrs.
-  assert (G : forall l0, In w (fold_left (nbr_step v) es l0) <-> In w l0 \/ In (v, w) es \/ In (w, v) es).
-  { induction es as [|[a b] t IH]; intros l0; cbn [fold_left]; [cbn; tauto|].
-    rewrite IH. unfold nbr_step. cbn [fst snd].
-    destruct (Z.eqb_spec a v) as [->|Na], (Z.eqb_spec b v) as [->|Nb]; rewrite ?set_add_In; cbn [In]; split;
-      intros H; repeat (destruct H as [H|H]); try (inversion H; subst); auto; try congruence;
-      try (left; tauto); try (right; tauto); tauto. }
-  rewrite G. cbn. tauto.
-Qed.
-
 Lemma unsorted_sets nv faces m :
   wf_faces nv faces -> mesh_of nv faces m ->
   forall A, 0 <= A < nv ->
@@ -159,6 +150,47 @@ Proof.
     split; [exact N|]. split; [exact Hb|]. split; [exact Hi|].
     intros x. eapply is_vertex_on_border_correct; eauto.
 Qed.
+
+(* ------------------------------------------------------------------ derived list answers *)
+Definition derived_lists_stmt (faces : list (list Z)) (m : mesh) (f : bool) : Prop :=
+  (* corner -> face *)
+  (forall c, p_corner_to_face m f c = match sp_corner faces c with Some x => Ok (cf x) | None => Err EIndex end)
+  (* faces / edges around a vertex follow the corner ring / the vertex ring *)
+  /\ (forall A l, p_vertex_to_corners m f A = Ok (Some l) -> (forall c, In c l -> valid_corner faces c) ->
+                  p_vertex_to_faces m f A = Ok (map (sp_corner_face faces) l))
+  /\ (forall A vs, p_vertex_to_vertices m f A = Ok vs ->
+                   p_vertex_to_edges m f A = Ok (map (sp_edge_id (m_edges m) A) vs))
+  (* corners, edges, faces around a face, side by side *)
+  /\ (forall F lF, zth faces F = Some lF -> lF <> [] ->
+        exists c0, sp_face_to_first_corner faces F = Some c0
+          /\ p_face_to_corners m f F = Ok (map (fun i => c0 + i) (zrange (zlen lF)))
+          /\ (forall i, 0 <= i < zlen lF ->
+                exists x, In x (all_corners faces) /\ cf x = F /\ ci x = i /\ cid x = c0 + i /\ zth lF i = Some (cv x))
+          /\ p_face_to_faces m f F
+             = Ok (flat_map (fun c => match sp_opp faces c with Some o => [sp_corner_face faces o] | None => [] end)
+                            (map (fun i => c0 + i) (zrange (zlen lF)))))
+  /\ (forall F lF, zth faces F = Some lF ->
+        p_face_to_edges m f F
+        = Ok (map (fun i => sp_edge_id (m_edges m) (zth_d lF i) (zth_d lF ((i + 1) mod zlen lF))) (zrange (zlen lF)))).
+
+Lemma derived_lists nv faces m f T :
+  wf_faces nv faces -> mesh_of nv faces m -> compute_connectivity m f = Ok T -> derived_lists_stmt faces m f.
+Proof.
+  intros Hw Hm HT. unfold derived_lists_stmt. split; [|split; [|split; [|split]]].
+  - intros c. eapply corner_to_face_correct; eauto.
+  - intros A l E Hv. eapply vertex_to_faces_correct; eauto.
+  - intros A vs E. eapply vertex_to_edges_correct; eauto.
+  - intros F lF Ez Hne.
+    destruct (face_to_corners_correct nv faces m f T Hw Hm HT F lF Ez Hne) as (c0 & E0 & E1 & E2).
+    exists c0. split; [exact E0|]. split; [exact E1|]. split; [exact E2|].
+    destruct (face_to_faces_correct nv faces m f T Hw Hm HT F lF Ez Hne) as (cs & Ecs & Eff).
+    rewrite E1 in Ecs. inversion Ecs; subst cs. exact Eff.
+  - intros F lF Ez. eapply face_to_edges_correct; eauto.
+Qed.
+
+Lemma build_mesh_ok nv faces :
+  wf_faces nv faces -> mesh_of nv faces (build_mesh nv faces) /\ edges_exact faces (m_edges (build_mesh nv faces)).
+Proof. intros Hw. split; [apply build_mesh_of, Hw|]. cbn. eapply gen_edges_exact; eauto. Qed.
 
 (* ------------------------------------------------------------------ examples: the hypotheses are satisfiable *)
 Definition ex_faces : list (list Z) := [[0; 1; 2]; [0; 2; 3]; [0; 3; 4; 5]].   (* a fan of 2 triangles and a quad; vertex 0 on the border *)
@@ -254,3 +286,7 @@ Example ex_ring_open : pure_answer (build_mesh 6 ex_faces) true (Q_vertex_to_cor
 Proof. vm_compute. reflexivity. Qed.
 Example ex_ring_closed : pure_answer (build_mesh 4 ex_closed) true (Q_vertex_to_corners 0) = AList [Some 3; Some 9; Some 0].
 Proof. vm_compute. reflexivity. Qed.
+
+Example ex_vertex_ring_open : pure_answer (build_mesh 6 ex_faces) true (Q_vertex_to_vertices 0) = AList [Some 5; Some 3; Some 2; Some 1]
+                              /\ sp_vertex_ring ex_faces [6; 3; 0] = [5; 3; 2; 1].
+Proof. split; vm_compute; reflexivity. Qed.
